@@ -2,7 +2,9 @@
 //! a counting allocator (flags any single request above 64 MiB + 16·len) and RLIMIT_AS, with a logger
 //! at Debug level installed (some code only runs when logging is enabled).
 //! `hostile BYTES` → `parse=<c> meta=<c> acc=<c> digests=<c> sig=<c> keyids=<c> files=<c>` with
-//! c ∈ ok | err | panic | skip; or `abort` (child died) / `alloc-excess`.
+//! c ∈ ok | err | panic | skip; or `abort` (child died) / `alloc-excess`; plus `iter=ok|runaway|panic|skip`: a consumer
+//! that keeps pulling items after an error (collect / filter_map) must see the iterator END (runaway = more than
+//! the header's file count + 16 items were produced).
 use crate::common::*;
 use crate::pkggen::*;
 use std::io::Read;
@@ -74,9 +76,22 @@ fn stages(bytes: &[u8]) -> String {
                     Ok(())
                 })))
             } else { "skip" };
-            out.push_str(&format!(" acc={} digests={} sig={} keyids={} files={}", cls(acc), cls(dig), cls(sig), cls(key), files));
+            let iter = if uncompressed {
+                match guarded(std::panic::AssertUnwindSafe(|| {
+                    let cap = p.metadata.get_file_entries().map(|v| v.len()).unwrap_or(0) + 16;
+                    match p.files() {
+                        Ok(it) => it.take(cap + 1).count() > cap,
+                        Err(_) => false,
+                    }
+                })) {
+                    Ok(false) => "ok",
+                    Ok(true) => "runaway",
+                    Err(_) => "panic",
+                }
+            } else { "skip" };
+            out.push_str(&format!(" acc={} digests={} sig={} keyids={} files={} iter={}", cls(acc), cls(dig), cls(sig), cls(key), files, iter));
         }
-        _ => out.push_str(" acc=skip digests=skip sig=skip keyids=skip files=skip"),
+        _ => out.push_str(" acc=skip digests=skip sig=skip keyids=skip files=skip iter=skip"),
     }
     out
 }
@@ -152,8 +167,53 @@ pub fn small_built(seed: u64, with_files: bool) -> Vec<u8> {
     v
 }
 
+/// a hand-encoded package in the large-file layout: sizes in RPMTAG_LONGFILESIZES (64 bit, unchecked), an
+/// uncompressed payload of stripped (`07070X`) entries that carry only a file index
+pub fn stripped_pkg(sizes: &[u64], present: usize, idx_of: &dyn Fn(usize) -> u32, trailer: bool) -> Vec<u8> {
+    let lead = gen_lead(&mut Rng::new(9), false);
+    let n = sizes.len();
+    let mut h = GHeader::new();
+    h.push(1000, 6, &TData::Str(b"big".to_vec()));
+    h.push(1030, 3, &TData::U16(vec![0o100644; n]));
+    h.push(1034, 4, &TData::U32(vec![0; n]));
+    h.push(1035, 8, &TData::Strs(vec![Vec::new(); n]));
+    h.push(1036, 8, &TData::Strs(vec![Vec::new(); n]));
+    h.push(1037, 4, &TData::U32(vec![0; n]));
+    h.push(1039, 8, &TData::Strs(vec![b"root".to_vec(); n]));
+    h.push(1040, 8, &TData::Strs(vec![b"root".to_vec(); n]));
+    h.push(1116, 4, &TData::U32(vec![0; n]));
+    h.push(1117, 8, &TData::Strs((0..n).map(|i| format!("f{}", i).into_bytes()).collect()));
+    h.push(1118, 8, &TData::Strs(vec![b"/d/".to_vec()]));
+    h.push(5008, 5, &TData::U64(sizes.to_vec()));
+    let mut pay = Vec::new();
+    for i in 0..n {
+        pay.extend_from_slice(format!("07070X{:08x}", idx_of(i)).as_bytes());
+        pay.extend_from_slice(&[0, 0]);
+        let k = (sizes[i].min(present as u64)) as usize;
+        pay.extend(std::iter::repeat(b'x').take(k));
+        while pay.len() % 4 != 0 { pay.push(0); }
+    }
+    if trailer {
+        pay.extend_from_slice(b"07070Xffffffff\0\0");
+    }
+    assemble(&lead, &GHeader::new(), 0, &h, &pay)
+}
+
 pub fn gen(ctx: &mut Ctx) {
     let (si, sn) = ctx.shard;
+    if si == 0 {
+        // large-file layout with extreme 64-bit sizes (taken unchecked from the header), short data, shuffled indexes
+        let big = [0u64, 1, 5, 6, 0xffff_ffff, 0x1_0000_0000, 1 << 63, u64::MAX - 4, u64::MAX - 3, u64::MAX - 2, u64::MAX - 1, u64::MAX];
+        for &a in &big {
+            for present in [0usize, 5, 8] {
+                for trailer in [true, false] {
+                    ctx.req(&format!("hostile {}", hx(&stripped_pkg(&[a], present, &|i| i as u32, trailer))));
+                    ctx.req(&format!("hostile {}", hx(&stripped_pkg(&[3, a], present, &|i| i as u32, trailer))));
+                    ctx.req(&format!("hostile {}", hx(&stripped_pkg(&[a, 2], present, &|i| 1 - i as u32, trailer))));
+                }
+            }
+        }
+    }
     let base_a = small_built(1, true);
     let base_b = small_built(2, false);
     if si == 0 {
